@@ -46,6 +46,7 @@ func runC03(w *World, r *Report) {
 	errCollect(w, r, "C03/ERR-COLLECT", []string{"pkg/action", "pkg/kube"}, nil)
 	c03OldStaysAndCleanup(w, r, ef)
 	c03Atomic(w, r, ef)
+	c03UninstallAccepts(w, r)
 }
 
 // ---- failers -----------------------------------------------------------------------------------
@@ -932,4 +933,90 @@ func collectStatusConsts(f *ssa.Function, out map[string]bool) {
 			}
 		}
 	}
+}
+
+// c03UninstallAccepts: an atomic install that failed cleans up by running Uninstall on a release whose
+// stored status is still pending-install (the failed status is only set in memory), and a failed or
+// superseded release must be removable too: Uninstall.Run refuses a release because of its status only
+// when it is already uninstalled.
+func c03UninstallAccepts(w *World, r *Report) {
+	r.Rule("C03/UNINSTALL-ACCEPTS", "Uninstall.Run turns a release away because of its status only when that status is uninstalled: no other status test (pending, failed, …) leads to an error return before the resources are deleted", 1)
+	fn := w.Fn("pkg/action", "Uninstall.Run")
+	if fn == nil {
+		r.Unk("C03/UNINSTALL-ACCEPTS", "anchor", "-", "Uninstall.Run not found")
+		return
+	}
+	r.Fn(FuncName(fn))
+	g := FullGraph(fn)
+	var deletes []ssa.Instruction
+	for _, c := range callInstrs(fn) {
+		if f, _ := calleeOf(c.Common()); f != nil && strings.HasSuffix(FuncName(f), ".deleteRelease") {
+			deletes = append(deletes, c)
+		}
+	}
+	isStatus := func(v ssa.Value) bool {
+		n, ok := v.Type().(*types.Named)
+		return ok && n.Obj().Pkg() != nil && n.Obj().Pkg().Path() == relPkg && n.Obj().Name() == "Status"
+	}
+	type cond struct {
+		at    ssa.Instruction
+		what  string
+		edges []Edge
+	}
+	var conds []cond
+	for _, b := range fn.Blocks {
+		for _, in := range b.Instrs {
+			switch x := in.(type) {
+			case *ssa.BinOp:
+				if (x.Op != token.EQL && x.Op != token.NEQ) || !isStatus(x.X) {
+					continue
+				}
+				c, okc := constString(x.Y)
+				if !okc {
+					c, okc = constString(x.X)
+				}
+				if !okc || c == "uninstalled" {
+					continue
+				}
+				var es []Edge
+				for _, e := range condEdges(x) {
+					if e.truth == (x.Op == token.EQL) {
+						es = append(es, e.Edge)
+					}
+				}
+				conds = append(conds, cond{x, "status " + c, es})
+			case *ssa.Call:
+				f, _ := calleeOf(x.Common())
+				if f == nil || len(x.Call.Args) == 0 || !isStatus(x.Call.Args[0]) {
+					continue
+				}
+				if f.Signature.Results().Len() != 1 {
+					continue
+				}
+				var es []Edge
+				for _, e := range condEdges(x) {
+					if e.truth {
+						es = append(es, e.Edge)
+					}
+				}
+				conds = append(conds, cond{x, "(Status)." + f.Name() + "()", es})
+			}
+		}
+	}
+	bad := ""
+	for _, c := range conds {
+		for _, e := range c.edges {
+			for _, rp := range g.classifyReturns() {
+				if rp.Class != RetError {
+					continue
+				}
+				if ex, _ := g.PathExists(IPos{e.To(), -1}, retPos(rp), avoidInstrs(deletes...).withEdges()); ex {
+					// only if that return is not reachable the same way without the condition (a refusal caused by it):
+					// the other edge of the same test must be able to reach the delete
+					bad = c.what + " at " + w.InstrPos(c.at)
+				}
+			}
+		}
+	}
+	r.Check(bad == "" && len(deletes) > 0, "C03/UNINSTALL-ACCEPTS", "Run", w.Pos(fn.Pos()), "only the uninstalled status is turned away", "uninstall turns a release away on "+bad+": the clean-up of a failed atomic install (stored status still pending-install) is refused and the pending revision stays")
 }
